@@ -986,7 +986,16 @@ def gen_c03(rng, n, tier):
                     ws[2 if ws[5] == "req" else 3] = r.choice(["c9:s1", "c1:s9", "9999:c1:s1"])
                 ws[8] = r.choices(["ok", "none", "bad", "false"], [0.35, 0.2, 0.2, 0.25])[0]
             g.ops.append("q dump")
-            g.ops.append("block " + " ".join(ws))
+            if r.random() < 0.35:
+                # the verdict must not depend on where in a block the IBTP stands: proofs are checked in up to five groups, by one
+                # loop for the last group and another for the others (seeding round 26) — the IBTP among 1..10 plain transfers, at
+                # any position
+                others = [g.tx_xfer() for _ in range(r.randint(1, 10))]
+                pos = r.randint(0, len(others))
+                g.ops.append("block " + " | ".join(others[:pos] + [" ".join(ws)] + others[pos:]))
+                tags.add("proof-in-a-full-block:" + ws[8] + (":last" if pos == len(others) else ":not-last"))
+            else:
+                g.ops.append("block " + " ".join(ws))
             g.ops.append("q dump")
             tags.add("proof:" + ws[8])
             g.observe()
